@@ -498,3 +498,16 @@ Proof.
   rewrite (coord_layout g c Wg Hin), (coord_layout h c Wh Hin').
   apply coords_Qeq. apply loc_axes_Qeq; assumption.
 Qed.
+
+(** * A static input converts once: every read returns what the first conversion delivered *)
+Lemma static_reads_cached {A : Type} g h (d r : arr A) n :
+  link_deliver g h d = LOk r -> static_reads g h (Some r) d n = repeat (link_deliver g h d) n.
+Proof. intros E. induction n as [|n IH]; simpl; [reflexivity|]. rewrite IH, E. reflexivity. Qed.
+
+Theorem static_reads_stable {A : Type} g h (d : arr A) n :
+  static_reads g h None d n = repeat (link_deliver g h d) n.
+Proof.
+  induction n as [|n IH]; simpl; [reflexivity|]. f_equal.
+  destruct (link_deliver g h d) as [r| | |] eqn:E; try exact IH.
+  rewrite <- E. apply static_reads_cached. exact E.
+Qed.
